@@ -501,3 +501,132 @@ def eq_structural(lib, ty):
                 if fi and answer and len({x[2] for x, y in pairs}) != len(fi):
                     return "%s: not every field is compared" % vn[0]
     return None
+
+
+# ---------------------------------------------------------------------------------------------------------------
+# A constructor that builds its result in steps - `let mut d = self.fork(); d.variables = v; d` or
+# `self.with_variables(map)` - is brought to the shape the frame rules read (one aggregate assigned to the return
+# place) by the two textbook transformations: sibling constructors are inlined, and the struct local that becomes
+# the result is replaced by one local per field (scalar replacement of aggregates). Nothing is evaluated.
+
+def _walk_places(x, fn):
+    """Apply fn to every place dict ({"l":.., "p":..}) inside x, in place."""
+    if isinstance(x, dict):
+        if "l" in x and "p" in x and isinstance(x["p"], list):
+            fn(x)
+            return
+        for v in x.values():
+            _walk_places(v, fn)
+    elif isinstance(x, list):
+        for v in x:
+            _walk_places(v, fn)
+
+
+def needs_sroa(b, adt_path, siblings=()):
+    ret = ret_locals(b)
+    for bb, idx, place, rv, _ in b.assignments():
+        if place["l"] in ret and place["p"] and place["p"][0].startswith("f"):
+            return True
+        if rv["k"] == "ref" and rv["place"]["l"] in ret and rv["place"]["p"] and rv["place"]["p"][0].startswith("f"):
+            return True
+    for c in b.calls:
+        if c.name in siblings and c.name != b.name and c.dest["l"] in ret and not c.dest["p"]:
+            return True
+    return False
+
+
+def sroa_ctor(lib, b, adt_path, siblings=()):
+    """Body -> equivalent Body in which the value returned is one aggregate of `adt_path` assigned to the return
+    place at the end, its operands being per-field locals. Returns b itself when the transformation does not apply."""
+    import copy
+    from lib import inline as _inl
+    from lib.facts import Body
+    adt = lib.adts.get(adt_path)
+    if adt is None or len(adt["variants"]) != 1:
+        return b
+    raw = copy.deepcopy(b.raw)
+    for _round in range(2):
+        nb0 = Body(b.name, raw, b.info)
+        nb0.crate = lib
+        ret0 = ret_locals(nb0)
+        did = False
+        for i in range(len(raw["blocks"])):
+            blk = raw["blocks"][i]
+            t = blk["term"]
+            if t["k"] == "call" and not blk["cleanup"]:
+                nm = t.get("resolved") or t.get("callee")
+                if nm in siblings and nm != b.name and t.get("dest") and t["dest"]["l"] in ret0 and not t["dest"]["p"]:
+                    cal = lib.bodies.get(nm) or lib.raw_bodies.get(nm)
+                    if cal is not None and cal.raw["arg_count"] == len(t["args"]):
+                        _inl._inline_one(raw, i, copy.deepcopy(cal.raw), nm)
+                        did = True
+        if not did:
+            break
+    nb = Body(b.name, raw, b.info)
+    nb.crate = lib
+    ret = ret_locals(nb)
+    aggs = [(bb, idx) for bb, idx, place, rv, _ in nb.assignments()
+            if rv["k"] == "agg" and rv.get("adt") == adt_path and place["l"] in ret and not place["p"]]
+    if len(aggs) != 1:
+        return nb
+    fields = adt["variants"][0]["fields"]
+    base = len(raw["locals"])
+    for f in fields:
+        raw["locals"].append({"ty": f["ty"], "name": None, "mut": True, "sroa_field": f["name"]})
+    whole_bad = []
+
+    def is_field(p):
+        return bool(p) and p[0].startswith("f") and p[0][1:].isdigit() and int(p[0][1:]) < len(fields)
+
+    # rewrite the statements
+    for bi, blk in enumerate(raw["blocks"]):
+        out = []
+        for s in blk["stmts"]:
+            if s.get("k") == "assign":
+                place, rv = s["place"], s["rv"]
+                if place["l"] in ret and not place["p"]:
+                    if rv["k"] == "agg" and rv.get("adt") == adt_path:
+                        for fi, o in enumerate(rv["ops"]):
+                            out.append({"k": "assign", "place": {"l": base + fi, "p": [], "ty": fields[fi]["ty"]},
+                                        "rv": {"k": "use", "op": o}, "loc": s["loc"], "sroa": True})
+                        continue
+                    if rv["k"] == "use" and rv["op"].get("k") in ("move", "copy") and rv["op"]["place"]["l"] in ret \
+                            and not rv["op"]["place"]["p"]:
+                        continue        # whole move inside the chain of result locals
+                    whole_bad.append(s)
+            out.append(s)
+        blk["stmts"] = out
+
+    def remap(pl):
+        if pl["l"] in ret:
+            if is_field(pl["p"]):
+                fi = int(pl["p"][0][1:])
+                pl["l"] = base + fi
+                pl["p"] = pl["p"][1:]
+            elif not pl["p"]:
+                whole_bad.append(pl)
+    loc0 = raw["blocks"][0]["term"]["loc"]
+    for blk in raw["blocks"]:
+        for s in blk["stmts"]:
+            if s.get("sroa"):
+                _walk_places(s["rv"], remap)
+            else:
+                _walk_places(s, remap)
+        t = blk["term"]
+        if t["k"] == "drop" and t["place"]["l"] in ret and not t["place"]["p"]:
+            continue
+        if t["k"] == "return" and not blk["cleanup"]:
+            blk["stmts"].append({"k": "assign", "place": {"l": 0, "p": [], "ty": adt_path},
+                                 "rv": {"k": "agg", "agg": "adt", "adt": adt_path, "variant": 0,
+                                        "variant_name": adt["variants"][0]["name"],
+                                        "fields": [f["name"] for f in fields],
+                                        "ops": [{"k": "move", "place": {"l": base + fi, "p": [], "ty": f["ty"]}}
+                                                for fi, f in enumerate(fields)]},
+                                 "loc": t.get("loc", loc0), "sroa_result": True})
+            continue
+        _walk_places(t, remap)
+    if whole_bad:
+        return nb       # the struct is also used as a whole: leave it to the rule to report what it cannot read
+    out = Body(b.name, raw, b.info)
+    out.crate = lib
+    return out
